@@ -79,6 +79,9 @@ class PumpWaiter(object):
 def make_object(kind, tag):
     if kind == 4:
         return Lendable(tag)
+    if kind == 5:
+        # a class object made at run time (factories, dynamically built record types): lent and released like anything else
+        return type("Fresh_" + tag, (object,), {"tag": tag})
     if kind == 0:
         return [tag]
     if kind == 1:
@@ -96,7 +99,7 @@ class World(object):
         import rpyc
         from rpyc.core import consts
         self.consts = consts
-        pump = PumpWaiter() if 4 in kinds else None
+        pump = PumpWaiter() if (4 in kinds or 5 in kinds) else None
         self.net, self.a, self.b = vnet.make_pair(rpyc.VoidService(), rpyc.VoidService(), held=True, waiter=pump)
         if pump is not None:
             pump.net, pump.conns = self.net, {"A": self.a, "B": self.b}
@@ -291,6 +294,9 @@ def run_history(ctx, rng, idx, script=None):
     kinds = [rng.randrange(4) for _ in range(nobj)]
     if script is None and idx % 3 == 0:
         kinds[rng.randrange(nobj)] = 4          # a user-class instance: unboxing it needs a nested INSPECT exchange
+    if script is None and idx % 3 == 1:
+        kinds[rng.randrange(nobj)] = 5          # a class object (its proxy class is asked for as well)
+        ctx.count("histories_with_class_objects")
     gc.disable()
     w = World(nobj, kinds)
     steps = []
